@@ -195,7 +195,11 @@ func HarnessRolloutDeployGate() {
 	root := vRootChain(router)
 	done := false
 	arrival := vIntRange("arrival", 0, vParam("arrival_points", 8))
-	vProxyPlans[0] = &vProxyPlan{service: 0}
+	// the opted-in request takes a while at its target, but less than the drain timeout: if the previous rollout targets
+	// are drained while it is in flight it still completes
+	svcTime := vDur("service_time")
+	vAssume(svcTime < drainTimeout || svcTime == 0)
+	vProxyPlans[0] = &vProxyPlan{service: svcTime}
 	go func() {
 		vArriveAfter(arrival)
 		req := &http.Request{Method: "GET", URL: &url.URL{Path: "/"}, Header: http.Header{"Cookie": []string{RolloutCookieName + "=x"}}, Host: "h", RemoteAddr: "1.2.3.4:5"}
@@ -208,9 +212,11 @@ func HarnessRolloutDeployGate() {
 		vEmit(vEvent{kind: "respond", req: 0, status: w.status})
 		done = true
 	}()
+	start := vNow()
 	err := router.SetRolloutTargets("svc", []string{"new0:80"}, deployTimeout, drainTimeout)
 	vEmit(vEvent{kind: "cmd_return", ok: err == nil})
 	vCmdReturned = true
+	ret := vNow()
 	vBlockUntil(func() bool { return done })
 	vNote(vTraceString())
 	okIdx := -1
@@ -228,6 +234,19 @@ func HarnessRolloutDeployGate() {
 	if err != nil {
 		vAssert(svc.rollout == prevRollout, "rollout gate: a failed rollout deploy leaves the rollout targets as they were")
 	}
+	// success iff the new target had a successful probe within the deploy timeout (ties either way); return bound
+	deadline := start + int64(deployTimeout)
+	firstOK := int64(-1)
+	if okIdx >= 0 {
+		firstOK = vTrace[okIdx].at
+	}
+	if firstOK >= 0 && firstOK < deadline {
+		vAssert(err == nil, "rollout gate: healthy within the deploy timeout => rollout deploy succeeds")
+	}
+	if !(firstOK >= 0 && firstOK <= deadline) {
+		vAssert(err != nil, "rollout gate: no successful probe within the deploy timeout => rollout deploy fails")
+	}
+	vAssert(ret <= deadline+int64(drainTimeout), "rollout gate: rollout deploy returns within deploy-timeout + drain-timeout")
 	res := vClientResults[0]
 	if res.status != 200 {
 		// only explanation allowed: the new target failed a later probe and left the rotation (C09: 503 when none is healthy)
